@@ -86,7 +86,7 @@ func runHmap(seed uint64, scale int, out string, _ string) *summary {
 		nops := 1800 + r.intn(1500)
 		shadow := map[int]int{}
 		// scripted collision clusters: a chain of three or more buckets under one root bucket, one of its
-		// middle buckets emptied again, then a resize (growth forced by fresh keys / shrink by the drain
+		// buckets (a middle one, or the root bucket itself) emptied again, then a resize (growth forced by fresh keys / shrink by the drain
 		// phase), then lookups of every key of the cluster
 		type forcedOp struct {
 			kind byte // S D G
@@ -131,6 +131,11 @@ func runHmap(seed uint64, scale int, out string, _ string) *summary {
 			mid := 1 + r.intn(len(cluster)/per-2+1)
 			if (mid+1)*per >= len(cluster) {
 				mid = 1
+			}
+			if r.chance(50) {
+				// the ROOT bucket itself is emptied while its overflow buckets stay populated
+				mid = 0
+				sum.Dist["collision_cluster_root_emptied"]++
 			}
 			for j := mid * per; j < (mid+1)*per; j++ {
 				forced = append(forced, forcedOp{'D', cluster[j]})
